@@ -20,9 +20,9 @@ func init() {
 			Explanation: "The 350·p^¼ formula, the −10 % rule and the recovery steps are arithmetic inside AppDB.UpdatePrice* and are NOT decided. Decided, the cap / window / burn skeleton: " +
 				"(cap) the emission cap constant is 10^10 BIP (10^28 pip); in BeginBlock the reward is re-priced and SetReward(new…) is reached only under `Emission() < TotalEmissionBig()`, and the other branch sets the reward to (0, 0); in EndBlock the block reward is read from the state only under the same comparison, and the emission counter is advanced only on that branch; " +
 				"(window) on every path to the re-pricing call in BeginBlock the block height satisfies height mod period == 1 and either no price was ever recorded or the block's header time has 12 ≤ hour ≤ 14 and header time − previous update > 3 h (constants evaluated), all times being req.Header.Time (C08.source separately forbids the wall clock); " +
-				"(mint) EndBlock advances the emission counter by App().Reward()'s per-block value, credits the positive difference between that value and the validators' reward to the zero address (the withheld part is burned), includes the difference in `reward`, and reports `reward` as the base-coin volume minted.",
+				"(round) the whole-percent price change that is compared with −10 is computed with big.Int.Div (rounds down), not Quo (truncates); (mint) EndBlock advances the emission counter by App().Reward()'s per-block value, credits the positive difference between that value and the validators' reward to the zero address (the withheld part is burned), includes the difference in `reward`, and reports `reward` as the base-coin volume minted.",
 			Assumptions: stdAssumptions,
-			Rules:       []string{"C28.cap", "C28.window", "C28.mint"},
+			Rules:       []string{"C28.cap", "C28.window", "C28.mint", "C28.round"},
 		},
 		Run: runC28,
 	})
@@ -97,6 +97,7 @@ func runC28(c *core.Ctx) {
 	if end != nil {
 		checkEndMint(c, end)
 	}
+	checkPercentRounding(c, "C28.round")
 }
 
 func checkBeginReward(c *core.Ctx, fn *ssa.Function) {
@@ -387,4 +388,49 @@ func capEdgeBlock(c *core.Ctx, b *ssa.BasicBlock) bool {
 		return false
 	}
 	return capFact(c.FactsAt(b.Instrs[0], 0), true)
+}
+
+// checkPercentRounding — "−10 % or worse (rounded down to a whole percent)": in the live price
+// update the whole-percent change that is compared with −10 must be produced by big.Int.Div
+// (Euclidean division: rounds toward −∞ for a positive divisor), not by big.Int.Quo (truncation
+// toward zero, which turns −9.5 % into −9 %). Library semantics of math/big are trusted; the rule
+// only looks at which of the two is used for the value that reaches the comparison.
+func checkPercentRounding(c *core.Ctx, rule string) {
+	fn := c.MustFn(rule, "(*coreV2/appdb.AppDB).UpdatePriceFix")
+	if fn == nil {
+		return
+	}
+	n := 0
+	for _, s := range core.Sites(fn) {
+		if s.Callee != "(*math/big.Int).Cmp" {
+			continue
+		}
+		// compared with big.NewInt(-10)
+		arg, ok := core.Unwrap(s.Common.Args[1]).(*ssa.Call)
+		if !ok || core.CalleeName(&arg.Call) != "math/big.NewInt" {
+			continue
+		}
+		if k, ok := core.ConstInt(arg.Call.Args[0]); !ok || k != -10 {
+			continue
+		}
+		n++
+		var how []string
+		good := true
+		for _, o := range core.Origins(s.Common.Args[0]) {
+			call, ok := o.(*ssa.Call)
+			if !ok {
+				good = false
+				how = append(how, describe(o))
+				continue
+			}
+			name := core.CalleeName(&call.Call)
+			how = append(how, name)
+			if name != "(*math/big.Int).Div" {
+				good = false
+			}
+		}
+		c.Check(good && len(how) > 0, rule, "UpdatePriceFix/percent-floor", s.Pos(), "the whole-percent price change compared with −10 is produced by big.Int.Div (rounds down)",
+			"the whole-percent price change compared with −10 is produced by "+strings.Join(how, ", ")+" instead of big.Int.Div: a drop strictly between 9 % and 10 % is truncated toward zero to −9 and no longer switches the validators' reward off")
+	}
+	c.Floor(rule, n, 1, "comparisons of the price change with −10")
 }
